@@ -159,6 +159,8 @@ class TransformerRun(object):
             return alg.RatFun.sym('U[%s]' % u)
         if isinstance(e, ast.Call) and isinstance(e.func, ast.Attribute) and e.func.attr == 'get_sampling_period':
             return alg.RatFun.sym('period') * alg.RatFun.sym('U[P]')
+        if isinstance(e, ast.Name) and e.id in self.nums:
+            return self.nums[e.id]
         return None
 
     def num_of(self, e):
@@ -288,6 +290,16 @@ class TransformerRun(object):
             return
         if isinstance(st, ast.Raise):
             self.raised = True
+            return
+        if isinstance(st, ast.Try):
+            # a conversion that substitutes a constant when something is missing converts with another period / unit for that caller, silently
+            for h in st.handlers:
+                rets = [r for b in h.body for r in ast.walk(b) if isinstance(r, ast.Return)]
+                if rets and not any(isinstance(x, ast.Raise) for b in h.body for x in ast.walk(b)):
+                    self.problems.append((h.lineno, 'falls back to `%s` when %s is raised: a caller for which the attribute or method is missing (another front end, an ast '
+                                          'without that setting) is converted with a constant instead of its sampling period / unit, silently'
+                                          % (ast.unparse(rets[0].value)[:40] if rets[0].value is not None else 'None', ast.unparse(h.type) if h.type is not None else 'anything')))
+            self.block(st.body)
             return
         raise AnalysisError('%s: statement `%s` is not interpreted' % (self.f.where, ast.unparse(st)[:60]))
 
@@ -754,6 +766,10 @@ def check_period_reaches_ast(ix, rep, rule='R-FWD'):
             if isinstance(x, ast.Attribute) and x.attr in ('sampling_period', 'sampling_period_unit') and isinstance(x.ctx, ast.Load) \
                     and ast.unparse(x.value) in ('ast', 'self.ast', 'self.spec', 'spec'):
                 readers.setdefault(x.attr, []).append((mod.rel, x.lineno))
+            # ast.get_sampling_period() reads both
+            if isinstance(x, ast.Call) and isinstance(x.func, ast.Attribute) and x.func.attr == 'get_sampling_period' and ast.unparse(x.func.value) in ('ast', 'self.ast', 'self.spec', 'spec'):
+                for a_ in ('sampling_period', 'sampling_period_unit'):
+                    readers.setdefault(a_, []).append((mod.rel, x.lineno))
     if len(readers) < 2:
         raise AnalysisError('no reader of ast.sampling_period / ast.sampling_period_unit in the pastifier or the explainer any more (anchor moved)')
     params = [a.arg for a in f.node.args.args[1:]]
